@@ -2,10 +2,14 @@ import Mathlib.Analysis.SpecialFunctions.Pow.Real
 import SciVerif.Lemmas.C03c
 import SciVerif.Lemmas.C03d
 import SciVerif.Lemmas.C03e
+import SciVerif.Lemmas.C03i
+import SciVerif.Lemmas.C03m
+import SciVerif.Lemmas.C03p
 import SciVerif.Facts.C03F1
 import SciVerif.Facts.C03F2
 import SciVerif.Facts.C03F3
 import SciVerif.Facts.C03F4
+import SciVerif.Facts.C03F7
 import SciVerif.Facts.C03Unique
 import SciVerif.Facts.C03Positive
 import SciVerif.Facts.C03PrefixDefs
@@ -151,17 +155,9 @@ def chainSum (v : UnitId) : List (Bool × Atom) → Rat
   | (true, b) :: rest => sumR b.units v + chainSum v rest
   | (false, b) :: rest => - sumR b.units v + chainSum v rest
 
-/-- the full statement of the expression theorem (text level): for every left-associative AST over
-    the tables, solving its rendered text gives the coefficient and the exponents of its denotation -/
-def C03_expr_denotation_statement (T : Tables) : Prop :=
-  ∀ (a : U) (d : Den), a.leftAssoc = true → denote T a = some d →
-    ∃ r, unitSolver T a.render = .ok r ∧ r.mag = d.coef ∧ ∀ u, expR r.units u = expOf d.exps u
-
-/-- Proved part (token level, any number of operands): the atom the solver's binary pass returns
-    for `a0 op1 a1 …` has, for every unit, the exponent `a0 ± a1 ± …`.  Missing for the full
-    statement: that tokenising the rendered text (character scan with parenthesis depth counter)
-    yields these tokens; that step is covered by the correspondence on every run. -/
-theorem C03_expr_denotation_partial (a0 r : Atom) (ops : List (Bool × Atom)) (v : UnitId)
+/-- Token level (any number of operands): the atom the solver's binary pass returns for
+    `a0 op1 a1 …` has, for every unit, the exponent `a0 ± a1 ± …`. -/
+theorem C03_chain_exponents (a0 r : Atom) (ops : List (Bool × Atom)) (v : UnitId)
     (h0 : densOk a0.units) (hops : ∀ x ∈ ops, densOk x.2.units) (h : foldChain a0 ops = some r) :
     expR r.units v = expR a0.units v + chainSum v ops ∧ densOk r.units := by
   induction ops generalizing a0 with
@@ -187,6 +183,92 @@ theorem C03_expr_denotation_partial (a0 r : Atom) (ops : List (Bool × Atom)) (v
         obtain ⟨e2, d2⟩ := ih c d1 hrest h
         refine ⟨?_, d2⟩
         rw [e2, e1]; simp only [chainSum]; ring
+
+/-- THE EXPRESSION THEOREM, TEXT LEVEL.  For every unit AST `a` that has a denotation `d` over the
+    tables (admissible prefix–symbol pairs, system units, number literals, products, quotients,
+    parentheses; `*` `/` left-associative) and EVERY rendering `s` of it — any blanks around leaves
+    and parentheses — the character scan with the parenthesis depth counter, the recursive solution
+    of parenthesised arguments and the passes of `UnitSolver` return an atom whose number is the
+    coefficient of `d` and whose exponent of every unit is the exponent `d` gives it.
+    (`T` arbitrary; the side conditions are the kernel-decided table facts.) -/
+theorem C03_expr_denotation (T : Tables) (h1 : factF1 T = true) (h2 : factF2 T = true)
+    (h3 : factF3 T = true) (h4 : factF4 T = true) (h7 : factF7 T = true)
+    (a : U) (s : Str) (hs : Renders a s) (hla : a.leftAssoc = true) (d : Den) (hd : denote T a = some d) :
+    ∃ r, unitSolver T s = .ok r ∧ r.mag = d.coef ∧ ∀ u, expR r.units u = expOf d.exps u := by
+  obtain ⟨hp, v, hv, hag⟩ := evalU_denote T h1 h2 h3 h4 h7 a d hd
+  exact ⟨v, unitSolver_renders T a s hs hp hla v hv, hag.mag, hag.exps⟩
+
+/-- … on the shipped table, for the rendering without blanks. -/
+theorem C03_expr_denotation_table (a : U) (hla : a.leftAssoc = true) (d : Den)
+    (hd : denote Gen.tables a = some d) :
+    ∃ r, unitSolver Gen.tables a.render = .ok r ∧ r.mag = d.coef ∧
+      ∀ u, expR r.units u = expOf d.exps u :=
+  C03_expr_denotation Gen.tables C03_fact_F1 C03_fact_F2 C03_fact_F3 C03_fact_F4 C03_fact_F7
+    a a.render (renders_render a) hla d hd
+
+/-- The fuel the driver supplies always suffices: `UnitSolver` never reports a fuel error, for
+    EVERY input text (so a `fuel` answer of the driver is impossible). -/
+theorem C03_fuel_suffices (T : Tables) (s : Str) : unitSolver T s ≠ .error .fuel :=
+  unitSolver_no_fuel T s
+
+/-- Dimension vector, TEXT LEVEL: for every rendering of an AST with denotation `d`,
+    `BaseUnits(text)` succeeds and its dimension vector is `Σ e·dim(u)` over `d`. -/
+theorem C03_dims_total (T : Tables) (h1 : factF1 T = true) (h2 : factF2 T = true) (h3 : factF3 T = true)
+    (h4 : factF4 T = true) (h7 : factF7 T = true) (hpos : factPositive T = true)
+    (a : U) (s : Str) (hs : Renders a s) (hla : a.leftAssoc = true) (d : Den) (hd : denote T a = some d) :
+    ∃ b, baseUnitsOfText T s = .ok b ∧ b.dims.map Frac.toRat = specDims T d.exps := by
+  have hT : tableDimsOk T := by
+    have h := hpos
+    unfold factPositive at h
+    simp only [Bool.and_eq_true, List.all_eq_true, decide_eq_true_eq, beq_iff_eq, bne_iff_ne, ne_eq] at h
+    exact ⟨fun u hu => ⟨(h.1.2 u hu).1.2, (h.1.2 u hu).2⟩, fun u hu => ⟨(h.2 u hu).1.2, (h.2 u hu).2⟩⟩
+  exact baseUnits_dims_total T h1 h2 h3 h4 h7 hpos hT a s hs hla d hd
+
+/-- Conversion factor of `Quantity(1,text)`, TEXT LEVEL, over ℝ: for every rendering of an AST with
+    denotation `d`, the quantity is built and its value in base units — number × factors moved
+    by the "dimensionless" block × magnitude of its units, each factor `x ** (n/d)` read as the real
+    power — is the numeric coefficient times `Π (prefix·unit)^e` over `d` (the fold over the whole
+    exponent map; zero exponents, un-normalised fractions and `rebase` included). -/
+theorem C03_quantity_factor (T : Tables) (h1 : factF1 T = true) (h2 : factF2 T = true) (h3 : factF3 T = true)
+    (h4 : factF4 T = true) (h7 : factF7 T = true) (hpos : factPositive T = true)
+    (a : U) (s : Str) (hs : Renders a s) (hla : a.leftAssoc = true) (d : Den) (hd : denote T a = some d) :
+    ∃ q, quantityOfText T s = .ok q ∧ q.total = ((d.coef : ℚ) : ℝ) * specFactor T d.exps := by
+  obtain ⟨q, hq⟩ := quantity_exists T h1 h2 h3 h4 h7 hpos a s hs hla d hd
+  exact ⟨q, hq, quantity_total T h1 h2 h3 h4 h7 hpos a s hs hla d hd q hq⟩
+
+/-- Full statement for `BaseUnits(text).magnitude`: the conversion factor of the expression,
+    numeric factors included. -/
+def C03_baseunits_factor_statement (T : Tables) : Prop :=
+  ∀ (a : U) (s : Str) (d : Den), Renders a s → a.leftAssoc = true → denote T a = some d →
+    ∃ b, baseUnitsOfText T s = .ok b ∧ magR b.factors = ((d.coef : ℚ) : ℝ) * specFactor T d.exps
+
+/-- Proved part: `BaseUnits(text)` succeeds and its magnitude is `Π (prefix·unit)^e` over the whole
+    exponent map — which is the conversion factor exactly when the expression's numeric coefficient
+    is 1 (guard `d.coef = 1`); a numeric factor is discarded (known finding). -/
+theorem C03_baseunits_factor_partial (T : Tables) (h1 : factF1 T = true) (h2 : factF2 T = true)
+    (h3 : factF3 T = true) (h4 : factF4 T = true) (h7 : factF7 T = true) (hpos : factPositive T = true)
+    (a : U) (s : Str) (hs : Renders a s) (hla : a.leftAssoc = true) (d : Den) (hd : denote T a = some d) :
+    ∃ b, baseUnitsOfText T s = .ok b ∧ magR b.factors = specFactor T d.exps ∧
+      (d.coef = 1 → magR b.factors = ((d.coef : ℚ) : ℝ) * specFactor T d.exps) := by
+  obtain ⟨v, b, _, _, htext, _, hmag⟩ := baseUnits_total T h1 h2 h3 h4 h7 hpos a s hs hla d hd
+  exact ⟨b, htext, hmag, fun hc => by rw [hmag, hc]; simp⟩
+
+/-- The full statement fails on the code as it is (mirrored by the model): `BaseUnits('2*m')` has
+    magnitude 1, the table product is 2. -/
+theorem C03_baseunits_factor_counterexample : ¬ C03_baseunits_factor_statement Gen.tables := by
+  intro h
+  let a : U := .mul (.num ['2']) (.atom [] ['m'] [])
+  have hd : denote Gen.tables a = some ⟨2, [(.std [] ['m'], 1)]⟩ := by decide +kernel
+  obtain ⟨b, hb, hmag⟩ := h a a.render _ (renders_render a) (by decide) hd
+  obtain ⟨b', hb', hmag', _⟩ := C03_baseunits_factor_partial Gen.tables C03_fact_F1 C03_fact_F2 C03_fact_F3
+    C03_fact_F4 C03_fact_F7 C03_fact_positive a a.render (renders_render a) (by decide) _ hd
+  rw [hb] at hb'
+  cases hb'
+  rw [hmag'] at hmag
+  have hk : keyMag Gen.tables (.std [] ['m']) = 1 := by
+    have : unitMag Gen.tables (.std [] ['m']) = some 1 := by decide +kernel
+    simp [keyMag, this]
+  simp [specFactor, hk] at hmag
 
 /-- Conversion factor over ℝ: for a positive table magnitude, adding exponents of the same unit
     multiplies the factors (`x^(e₁+e₂) = x^e₁·x^e₂`), subtracting divides, and the factor of a
@@ -233,11 +315,40 @@ theorem C03_dims_table_ok : tableDimsOk Gen.tables := by
   simp only [Bool.and_eq_true, List.all_eq_true, decide_eq_true_eq, beq_iff_eq, bne_iff_ne, ne_eq] at h
   exact ⟨fun u hu => ⟨(h.1.2 u hu).1.2, (h.1.2 u hu).2⟩, fun u hu => ⟨(h.2 u hu).1.2, (h.2 u hu).2⟩⟩
 
-/-- full statement that is only correspondence-checked on every run (not proved): rendering
-    (`expression`) then parsing gives the same units. -/
-def C03_render_roundtrip_statement (T : Tables) : Prop :=
-  ∀ (m : ExpMap) (b : BaseUnits) (txt : Str), densOk m → baseUnitsOfMap T m = some b → b.expr = some txt →
-    ∃ b2, baseUnitsOfText T txt = .ok b2 ∧ b2.entries = b.entries
+/-- Exponent text round trip: `Fraction.from_string(str(e))` is the rebased fraction, for every
+    fraction (digit rendering then the exponent-text reader), and `rebase` keeps the value and is
+    idempotent. -/
+theorem C03_exponent_roundtrip (e : Frac) :
+    Frac.fromString e.str = some e.rebase ∧
+    (e.den ≠ 0 → e.rebase.toRat = e.toRat ∧ e.rebase.rebase = e.rebase) :=
+  ⟨(fromString_str e).1, fun he => ⟨(rebase_spec e he).1, rebase_idem e he⟩⟩
+
+/-- Single atoms: the text `get_unit_base` writes for a key the tables allow (prefix ++ symbol ++
+    exponent text, nothing for exponent 1) is parsed back to exactly that key with the rebased exponent. -/
+theorem C03_atom_roundtrip (T : Tables) (h1 : factF1 T = true) (h2 : factF2 T = true) (h3 : factF3 T = true)
+    (h4 : factF4 T = true) (h7 : factF7 T = true) (u : UnitId) (e : Frac) (hg : goodKey T u) :
+    atomParse T (entryText u e) = .ok ⟨1, [(u, e.rebase)]⟩ :=
+  (entry_roundtrip T h1 h2 h3 h4 h7 u e hg).1
+
+/-- RENDER / PARSE ROUND TRIP for whole exponent maps: the `expression` text `BaseUnits` renders for
+    a dict over keys the tables allow (distinct keys, non-zero denominators; exponents need not be
+    normalised, zero exponents allowed) is accepted by `BaseUnits(text)` again and gives the same
+    dict entries, the same expression and the same magnitude. -/
+theorem C03_render_roundtrip (T : Tables) (h1 : factF1 T = true) (h2 : factF2 T = true) (h3 : factF3 T = true)
+    (h4 : factF4 T = true) (h7 : factF7 T = true)
+    (m : ExpMap) (b : BaseUnits) (txt : Str) (hm : densOk m) (hk : keysNodup m)
+    (hg : ∀ ue ∈ m, goodKey T ue.1) (hb : baseUnitsOfMap T m = some b) (ht : b.expr = some txt) :
+    ∃ b2, baseUnitsOfText T txt = .ok b2 ∧ b2.entries = b.entries ∧ b2.expression = b.expression ∧
+      magR b2.factors = magR b.factors :=
+  render_roundtrip T h1 h2 h3 h4 h7 m b txt hm hk hg hb ht
+
+/-- … on the shipped table. -/
+theorem C03_render_roundtrip_table (m : ExpMap) (b : BaseUnits) (txt : Str) (hm : densOk m)
+    (hk : keysNodup m) (hg : ∀ ue ∈ m, goodKey Gen.tables ue.1)
+    (hb : baseUnitsOfMap Gen.tables m = some b) (ht : b.expr = some txt) :
+    ∃ b2, baseUnitsOfText Gen.tables txt = .ok b2 ∧ b2.entries = b.entries ∧
+      b2.expression = b.expression ∧ magR b2.factors = magR b.factors :=
+  render_roundtrip Gen.tables C03_fact_F1 C03_fact_F2 C03_fact_F3 C03_fact_F4 C03_fact_F7 m b txt hm hk hg hb ht
 
 /-! ## non-vacuity: concrete instances of the hypotheses and of the conclusions -/
 example : ∃ u ∈ Gen.tables.units, u.sym = ['m'] ∧ ['d','a'] ∈ [] :: admPrefixes Gen.tables u := by
@@ -253,6 +364,25 @@ example : densOk [(.std [] ['m'], ⟨1, 2⟩)] := by intro x hx; simp at hx; sub
 example : foldChain ⟨1, [(.std [] ['m'], ⟨1, 1⟩)]⟩ [(false, ⟨1, [(.std [] ['s'], ⟨2, 1⟩)]⟩)] =
     some ⟨1, [(.std [] ['m'], ⟨1, 1⟩), (.std [] ['s'], ⟨-2, 1⟩)]⟩ := by decide +kernel
 example : noBlankHead Gen.tables := factF4_noBlank C03_fact_F4
+example : goodKey Gen.tables (.std ['k'] ['m']) ∧ goodKey Gen.tables (.sys ['#','S','A','D','O']) := by
+  constructor
+  · obtain ⟨u, hu, hs, hp⟩ : ∃ u ∈ Gen.tables.units, u.sym = ['m'] ∧ ['k'] ∈ [] :: admPrefixes Gen.tables u := by
+      decide +kernel
+    exact ⟨u, hu, hs, hp⟩
+  · show (Gen.tables.findSys ['#','S','A','D','O']).isSome = true
+    decide +kernel
+example : ((baseUnitsOfMap Gen.tables [(.std ['k'] ['m'], ⟨2, 4⟩), (.std [] ['g'], ⟨0, 3⟩),
+    (.std [] ['s'], ⟨-2, 1⟩)]).bind (·.expr)) = some "km1:2*s-2".toList := by decide +kernel
+example : Renders (.mul (.atom ['k'] ['g'] []) (.par (.div (.atom [] ['m'] ['2']) (.atom [] ['s'] ['2']))))
+    ("kg * ( m2/s2 )".toList) := by
+  have h := Renders.mul _ _ _ _
+    (Renders.leaf (.atom ['k'] ['g'] []) ['k','g'] [] [' '] rfl rfl rfl)
+    (Renders.par _ _ [' '] [] rfl rfl
+      (Renders.div _ _ _ _ (Renders.leaf (.atom [] ['m'] ['2']) ['m','2'] [' '] [] rfl rfl rfl)
+        (Renders.leaf (.atom [] ['s'] ['2']) ['s','2'] [] [' '] rfl rfl rfl)))
+  exact h
+example : (denote Gen.tables (.mul (.atom ['k'] ['g'] []) (.par (.div (.atom [] ['m'] ['2'])
+    (.atom [] ['s'] ['2']))))).isSome = true := by decide +kernel
 example : (baseUnitsOfMap Gen.tables [(.std ['k'] ['m'], ⟨1, 2⟩), (.std [] ['s'], ⟨-2, 1⟩)]).map
     (fun b => b.dims.map Frac.value) =
     some [.pair 1 2, .int 0, .pair (-2) 1, .int 0, .int 0, .int 0, .int 0, .int 0] := by decide +kernel
